@@ -150,6 +150,9 @@ pub struct EvDump {
     pub reference_location: crate::Location,
     /// `Events::last_location()` observed after `next()`.
     pub last_location: crate::Location,
+    /// The shared I/O error cell held an error after the `peek()` / after the `next()` of this step.
+    pub io_pending_after_peek: bool,
+    pub io_pending_after_next: bool,
 }
 
 fn dump_ev(ev: &Ev<'_>, reference_location: crate::Location) -> EvDump {
@@ -163,6 +166,8 @@ fn dump_ev(ev: &Ev<'_>, reference_location: crate::Location) -> EvDump {
         location: ev.location(),
         reference_location,
         last_location: crate::Location::UNKNOWN,
+        io_pending_after_peek: false,
+        io_pending_after_next: false,
     };
     match ev {
         Ev::Scalar {
@@ -221,10 +226,13 @@ fn pump(mut src: LiveEvents<'_>, use_peek: bool, max_events: usize) -> PumpResul
             break;
         }
         let mut reference_location = crate::Location::UNKNOWN;
+        let mut pending_peek = false;
         if use_peek {
-            match src.peek() {
-                Ok(Some(_)) => reference_location = src.reference_location(),
-                Ok(None) => break,
+            let r = src.peek().map(|o| o.is_some());
+            pending_peek = src.io_error_pending();
+            match r {
+                Ok(true) => reference_location = src.reference_location(),
+                Ok(false) => break,
                 Err(e) => {
                     error = Some(e);
                     break;
@@ -235,6 +243,8 @@ fn pump(mut src: LiveEvents<'_>, use_peek: bool, max_events: usize) -> PumpResul
             Ok(Some(ev)) => {
                 let mut d = dump_ev(&ev, reference_location);
                 d.last_location = src.last_location();
+                d.io_pending_after_peek = pending_peek;
+                d.io_pending_after_next = src.io_error_pending();
                 events.push(d);
             }
             Ok(None) => break,
@@ -313,4 +323,56 @@ pub fn location_parts(l: &crate::Location) -> (u32, u32, u64, u64, u64, u64) {
         l.span.byte_info.0 as u64,
         l.span.byte_info.1 as u64,
     )
+}
+
+/// `ChunkedChars` over a caller-supplied reader (no BufReader / decoder in between): the decoded
+/// characters, the error left in the shared cell (kind and whether it is the size-cap error), and
+/// the number of decoded bytes counted.
+pub fn chunked_chars<R: std::io::Read>(
+    reader: R,
+    max_bytes: Option<usize>,
+    max_chars: usize,
+) -> (Vec<char>, Option<std::io::ErrorKind>) {
+    let cell: crate::buffered_input::ReaderInputError =
+        std::rc::Rc::new(std::cell::RefCell::new(None));
+    let mut it = crate::buffered_input::ChunkedChars::new(reader, max_bytes, cell.clone());
+    let mut out = Vec::new();
+    while out.len() < max_chars {
+        match it.next() {
+            Some(c) => out.push(c),
+            None => break,
+        }
+    }
+    let kind = cell.borrow().as_ref().map(|e| e.kind());
+    (out, kind)
+}
+
+/// RingReader driven by a script: `Some(n)` = `read` into a buffer of `n` bytes, `None` =
+/// `get_recent()`.  Returns the bytes handed to the consumer and, per `get_recent`, the snapshot
+/// `(start_offset, start_line, bytes)`.
+#[allow(clippy::type_complexity)]
+pub fn ring_reader_script<R: std::io::Read>(
+    inner: R,
+    script: &[Option<usize>],
+) -> (Vec<u8>, Vec<Result<(u64, usize, Vec<u8>), std::io::ErrorKind>>, Option<std::io::ErrorKind>) {
+    use std::io::Read;
+    let mut rr = crate::ring_reader::RingReader::new(inner);
+    let mut out = Vec::new();
+    let mut snaps = Vec::new();
+    for step in script {
+        match step {
+            Some(n) => {
+                let mut buf = vec![0u8; *n];
+                match rr.read(&mut buf) {
+                    Ok(k) => out.extend_from_slice(&buf[..k]),
+                    Err(e) => return (out, snaps, Some(e.kind())),
+                }
+            }
+            None => match rr.get_recent() {
+                Ok(s) => snaps.push(Ok((s.start_offset, s.start_line, s.bytes))),
+                Err(e) => snaps.push(Err(e.kind())),
+            },
+        }
+    }
+    (out, snaps, None)
 }
